@@ -92,6 +92,20 @@ func C05(sp *spec.Spec, ex *rt.Exchange) *Verdict {
 		return v
 	}
 	ce := ex.ClientOut.Err
+	if strings.HasPrefix(c.Class, "declared:") && oc.Custom {
+		// the scripted custom error value must satisfy its own type (the case generator's duty)
+		for _, e := range sp.AllErrors(sv, m) {
+			if e.Name == oc.ErrName && e.Type != nil {
+				var viol []Violation
+				var und []string
+				Validate(sp, e.Type, nil, oc.ErrTree, "", &viol, &und, 0)
+				if len(viol) > 0 || len(und) > 0 {
+					v.Inconclusive = "case generator produced an error value that does not satisfy the design"
+					return v
+				}
+			}
+		}
+	}
 	switch {
 	case strings.HasPrefix(c.Class, "declared:"):
 		he := sp.HTTPErrorFor(sv, m, oc.ErrName)
